@@ -251,7 +251,8 @@ def finish(mod, pid, args, seed, repo, shards, results, t_start, warm_s):
             info["evaluations"] = out["evaluations"]
             if out["status"] != "ok":
                 inconclusive.append(f"shard {r['name']}: harness error: "
-                                    f"{(out['error'] or '')[-600:]}")
+                                    f"{(out['error'] or '').strip().splitlines()[-1][:300]}")
+                notes.append(f"shard {r['name']} traceback: {(out['error'] or '')[-1500:]}")
         else:
             if r["timed_out"]:
                 inconclusive.append(f"shard {r['name']}: wall-clock watchdog "
